@@ -93,6 +93,13 @@ def dnskey(rng):  # pylint: disable=too-many-locals,too-many-branches,too-many-s
     elif kind == 'ed25519':
         algorithm = alg.DnsSecAlgorithm.ED25519
         public = rbytes(rng, 32)
+        if rng.random() < 0.3:
+            # steer the RFC 4034 Appendix B accumulator so that its low 16 bits sit just below 2^16: adding the carry then
+            # overflows them, which is where an end-around-carry (Internet checksum) fold differs from the specified one
+            body = ref.dnskey(flags, 3, algorithm.value.code, public[:30] + b'\x00\x00')
+            accumulator = sum((byte << 8) if index % 2 == 0 else byte for index, byte in enumerate(body))
+            wanted = 0x10000 - rng.randrange(1, 1 + max(1, accumulator >> 16))
+            public = public[:30] + ((wanted - accumulator) % 0x10000).to_bytes(2, 'big')
         key = ckey.PublicKey.from_params(ckey.PublicKeyParamsEddsa(curve_type=calg.NamedGroup.CURVE25519, key_data=public))
     else:
         algorithm = alg.DnsSecAlgorithm.ED448
